@@ -1,6 +1,9 @@
 #![allow(clippy::all)]
+pub mod base;
 pub mod node;
 pub mod props;
 pub mod rt;
+pub mod sim;
 pub mod snap;
+pub mod truth;
 pub mod world;
